@@ -971,3 +971,155 @@ def run_load_pure(ctx: Ctx) -> RuleResult:
                             path=cg.path_to(reach, f.qual))
     res.require_instances(n, 15, 'writes on the load path')
     return res
+
+
+# ------------------------------------------------------------------------------------------------
+# Per-call classes that are plain data values: a shared object may hold them (grammar trees, templates, analysis sets);
+# what R-SHARED-EFFECTS assumes is only that the *stateful machinery* below is never reachable from shared state.
+PER_CALL_VALUES = {
+    'lark.tree:Tree': 'grammar / template trees are data held by the loader and by tree templates',
+    'lark.tree:SlottedTree': 'same as Tree',
+    'lark.lexer:Token': 'tokens are immutable strings; grammar trees and tree matchers hold them',
+    'lark.tree:Meta': 'position record of a data tree',
+    'lark.utils:OrderedSet': 'a container used by grammar analysis for its (construction-time) item sets',
+    'lark.utils:TextSlice': 'immutable view of the input',
+}
+
+
+def run_percall_escape(ctx: Ctx) -> RuleResult:
+    """R-PERCALL-ESCAPE [C10]: the ownership analysis treats instances of the per-call classes (lexer/parser state,
+    forest visitors, ...) as owned by one parse.  That holds only if no such instance is ever stored in a field of
+    an object that outlives the call -- in particular not by a constructor, which the per-call region does not
+    cover.  Every field of every long-lived class is listed with the classes its stores can hold."""
+    repo = ctx.repo
+    ty = ctx.typer
+    own = Own(ctx, {})
+    res = RuleResult('R-PERCALL-ESCAPE', 'no field of a long-lived object holds per-call machinery (lexer/parser state, forest visitors)')
+    n = 0
+    for (cq, attr), ts in sorted(ty.fields.items()):
+        kind = own.class_kind({'C:' + cq})
+        if kind in ('percall', None):
+            continue
+        n += 1
+        hits = set()
+        for t in ts:
+            core = t
+            while core.startswith(('E:', 'K:')):
+                core = core[2:]
+            if core.startswith('C:') and core[2:] not in PER_CALL_VALUES and own.class_kind({core}) == 'percall' \
+                    and not _is_exception(repo, core[2:]):
+                hits.add(core[2:])
+        k = repo.classes[cq]
+        ok = not hits
+        res.ob('%s %s.%s' % (k.module.loc(k.node), cq, attr), 'field of a long-lived class holds no per-call machinery (holds %s)'
+               % (sorted(x for x in ts if x.startswith(('C:', 'E:C:')))[:3] or 'no class instance'), ok)
+        if not ok:
+            # the stores themselves, for the report
+            where = None
+            for f in repo.functions.values():
+                for node in f.body_nodes():
+                    if isinstance(node, ast.Assign):
+                        for t in node.targets:
+                            if isinstance(t, ast.Attribute) and t.attr == attr and ('C:' + cq) in ty.expr(f, t.value):
+                                where = (f, node)
+            msg = ('%s.%s holds an instance of %s: state that the analysis (and the code) treats as owned by one parse is shared by every '
+                   'call on the same object -- re-entrant or concurrent parse() calls see each other\'s state' % (cq, attr, ', '.join(sorted(hits))))
+            if where is not None:
+                res.finding(where[0], where[1], msg, construct='escape:%s.%s<-%s' % (cq.split(':')[1], attr, ','.join(sorted(h.split(':')[1] for h in hits))))
+            else:
+                res.finding(cq, k.node, msg, construct='escape:%s.%s<-%s' % (cq.split(':')[1], attr, ','.join(sorted(h.split(':')[1] for h in hits))),
+                            module=k.module)
+    res.require_instances(n, 150, 'fields of long-lived classes')
+    return res
+
+
+def _is_exception(repo: Repo, q: str) -> bool:
+    k = repo.classes.get(q)
+    return k is not None and any(c.qual == EXC_BASE for c in k.mro())
+
+
+# ------------------------------------------------------------------------------------------------
+def _tree_positions(ann: ast.AST) -> Optional[List[Tuple[int, ...]]]:
+    """For an annotation List[Tuple[...]] return the index paths of the Tree components of the element tuple."""
+    if not (isinstance(ann, ast.Subscript) and norm(ann.value) in ('List', 'list', 'Sequence')):
+        return None
+    out: List[Tuple[int, ...]] = []
+
+    def walk(t: ast.AST, path: Tuple[int, ...]):
+        if isinstance(t, ast.Subscript) and norm(t.value) in ('Tuple', 'tuple'):
+            elts = t.slice.elts if isinstance(t.slice, ast.Tuple) else [t.slice]
+            for i, el in enumerate(elts):
+                walk(el, path + (i,))
+        elif isinstance(t, ast.Name) and t.id == 'Tree':
+            out.append(path)
+        elif isinstance(t, ast.Subscript) and norm(t.value) == 'Optional':
+            walk(t.slice, path)
+    walk(ann.slice, ())
+    return out
+
+
+def _target_at(t: ast.AST, path: Tuple[int, ...]) -> Optional[ast.AST]:
+    for i in path:
+        if not isinstance(t, (ast.Tuple, ast.List)) or i >= len(t.elts):
+            return None
+        t = t.elts[i]
+    return t
+
+
+COPY_FUNCS = {'nr_deepcopy_tree', 'deepcopy'}
+
+
+def run_compile_copies(ctx: Ctx) -> RuleResult:
+    """R-COMPILE-COPIES [C10]: Grammar.compile rewrites definition trees in place (anonymous tokens, EBNF expansion,
+    simplification).  A Grammar object can be compiled more than once (Lark(other.grammar), the second compile for
+    postlex.always_accept, Reconstructor / TreeMatcher), so every tree that compile reads from the Grammar object must
+    be deep-copied first; otherwise an instance depends on which instances were created before it."""
+    repo = ctx.repo
+    res = RuleResult('R-COMPILE-COPIES', 'Grammar.compile deep-copies every definition tree it takes from the (re-usable) Grammar object')
+    k = repo.cls('lark.load_grammar:Grammar')
+    comp = k.methods.get('compile')
+    if comp is None:
+        raise AnalysisError('Grammar.compile not found (anchor vanished)')
+    sn = comp.self_name()
+    fields: Dict[str, List[Tuple[int, ...]]] = {}
+    for n in k.node.body:
+        if isinstance(n, ast.AnnAssign) and isinstance(n.target, ast.Name):
+            pos = _tree_positions(n.annotation)
+            if pos:
+                fields[n.target.id] = pos
+    res.require_instances(len(fields), 2, 'Grammar fields annotated as lists of tuples holding a Tree')
+    n_reads = 0
+    for n in comp.body_nodes():
+        if not (isinstance(n, ast.Attribute) and isinstance(n.value, ast.Name) and n.value.id == sn and n.attr in fields
+                and isinstance(n.ctx, ast.Load)):
+            continue
+        n_reads += 1
+        site = '%s %s' % (comp.module.loc(n), comp.qual)
+        p = parent(n)
+        ok, why = False, 'it is not the iterable of a copying comprehension'
+        if isinstance(p, ast.comprehension) and p.iter is n:
+            lc = parent(p)
+            if isinstance(lc, (ast.ListComp, ast.GeneratorExp)) and len(lc.generators) == 1:
+                ok = True
+                for path in fields[n.attr]:
+                    tv = _target_at(p.target, path)
+                    if not isinstance(tv, ast.Name):
+                        ok, why = False, 'the tree component %s of the element is not bound to a name of its own' % (path,)
+                        break
+                    uses = [x for x in ast.walk(lc.elt) if isinstance(x, ast.Name) and x.id == tv.id]
+                    uses += [x for c in p.ifs for x in ast.walk(c) if isinstance(x, ast.Name) and x.id == tv.id and False]
+                    for u in uses:
+                        c = parent(u)
+                        if not (isinstance(c, ast.Call) and isinstance(c.func, ast.Name) and c.func.id in COPY_FUNCS and c.args and c.args[0] is u):
+                            ok, why = False, 'the tree `%s` is passed on without a deep copy' % tv.id
+                    if not uses:
+                        ok, why = False, 'the tree `%s` is dropped' % tv.id
+                    if not ok:
+                        break
+        res.ob(site, 'the trees of %s.%s are deep-copied before compile rewrites them' % (k.name, n.attr), ok)
+        if not ok:
+            res.finding(comp, enclosing_stmt(n), 'Grammar.compile uses the trees of self.%s without copying them (%s): compile rewrites them in place, '
+                        'so the next Lark built from the same Grammar object gets the rewritten trees' % (n.attr, why),
+                        construct='compile-shares-trees:' + n.attr)
+    res.require_instances(n_reads, 2, 'reads of tree-holding Grammar fields in compile')
+    return res
